@@ -7,6 +7,13 @@ use std::time::Instant;
 
 pub const VERIF_DIR: &str = "/verif";
 
+static CURRENT_PROPERTY: std::sync::Mutex<String> = std::sync::Mutex::new(String::new());
+
+/// the property whose check is running (for replay files written by self-guarding runners)
+pub fn current_property() -> String {
+    CURRENT_PROPERTY.lock().unwrap().clone()
+}
+
 #[derive(Clone, Debug)]
 pub struct Violation {
     /// stable identity used to match known findings
@@ -112,6 +119,7 @@ pub struct Report {
 
 impl Report {
     pub fn new(id: &str, tier: &str, level: &'static str, rule: &str) -> Self {
+        *CURRENT_PROPERTY.lock().unwrap() = id.to_string();
         Self {
             id: id.to_string(),
             tier: tier.to_string(),
@@ -317,7 +325,9 @@ where
                         break;
                     }
                     let mut st = Stats::default();
-                    f(i, &mut st);
+                    // catch-all: 20 watchdog limits without any case-level guard being entered or left
+                    let describe = || ("job".to_string(), format!("job {i} of {n} of a parallel phase of {} made no progress", current_property()), json!({"kind": "job", "index": i}));
+                    crate::sim::watchdog::guard_with(20, &describe, || f(i, &mut st));
                     local.push((i, st));
                 }
                 results.lock().unwrap().extend(local);
